@@ -327,6 +327,59 @@ def return_shape_suite(ctx, n):
         return_shape_case(ctx, case)
 
 
+def sow_collision_case(ctx, case):
+  """a sow whose name is also the name of a param / variable of ANOTHER collection in the same scope: whether the sow
+  collection is mutable or not, the primary output, the other returned collections and success must be those of
+  the program without the sow"""
+  prog, style, mj, kind = case['prog'], case['style'], case['mutable'], case['call']
+  erased = S.erase_observers(prog, perturb_too=False)
+  sow_cols = S.cols_of(prog, ('sow',))
+  ctx.case(case)
+  ctx.count('sow_collision', kind + ':' + _form(mj))
+  Ve = S.run_scenario(S.Rendered(erased, style), {'kind': 'init', 'prog': erased, 'style': style, 'mutable': True, 'x': case['x'], 'rngs': True})
+  if Ve['peak'] >= S.LIMIT or Ve['result'][0] != 'ok':
+    return
+  base = {'style': style, 'mutable': mj, 'x': case['x'], 'rngs': True, 'ncalls': 1}
+  if kind == 'init':
+    base['kind'] = 'init'
+  else:
+    base.update(kind='apply', vars=Ve['result'][2], frozen=False)
+  full = S.run_scenario(S.Rendered(prog, style), dict(base, prog=prog))
+  er = S.run_scenario(S.Rendered(erased, style), dict(base, prog=erased))
+  if max(full['peak'], er['peak']) >= S.LIMIT:
+    return
+  rf, re_ = full['result'], er['result']
+  if rf[0] != re_[0]:
+    ctx.violation('observer-changes-outcome:sow-name', f"with the sow the call gives {rf[:2]}, without it {re_[:2]} (a sow named like a param/variable of another collection, mutable={mj!r})", case)
+  elif rf[0] == 'ok':
+    others = lambda J: None if J is None else sorted((p, json.dumps(v, sort_keys=True)) for p, v in J['vars'] if p[0] not in sow_cols)
+    if rf[1] != re_[1] or others(rf[2]) != others(re_[2]):
+      ctx.violation('observer-changes-output:sow-name', f"the sow changed the primary output or another collection: {rf[1]} vs {re_[1]}", case)
+
+
+def sow_collision_suite(ctx):
+  rng = ctx.rng
+  filters = [False, 'stats', {'deny': 'intermediates'}, {'deny': ['intermediates', 'inter']}, 'intermediates', ['intermediates', 'stats'],
+             ['inter', 'intermediates', 'stats', 'params'], True, {'deny': 'params'}, {'deny': []}]
+  for other in ('param', 'var'):
+    for order in (0, 1):
+      for scol in ('intermediates', 'inter'):
+        name = rng.choice(['scale', 'mean'])
+        decl = ({'op': 'param', 'n': name, 'shape': [2], 'init': 2} if other == 'param'
+                else {'op': 'variable', 'c': 'stats', 'n': name, 'shape': [], 'e': 3})
+        sow = {'op': 'sow', 'c': scol, 'n': name, 'e': {'+': ['x', 1]}}
+        body = ([decl, sow, {'op': 'ret', 'e': {'*': ['x', {'l': 0}]}}] if order == 0
+                else [sow, decl, {'op': 'ret', 'e': {'*': ['x', {'l': 0}]}}])
+        progs = [body, [{'op': 'child', 'cls': 'A', 'name': None, 'body': body}, {'op': 'call', 'slot': 0, 'e': 'x'},
+                        {'op': 'call', 'slot': 0, 'e': {'l': 0}}, {'op': 'ret', 'e': {'l': 1}}]]
+        for prog in progs:
+          for style in ('compact', 'setup') if S.setup_eligible(prog) else ('compact',):
+            for mj in filters:
+              sow_collision_case(ctx, {'kind': 'sow-collision', 'prog': prog, 'style': style, 'mutable': mj, 'call': 'apply', 'x': rng.randrange(1, 4)})
+            for mj in (True, {'deny': 'intermediates'}, {'deny': []}):
+              sow_collision_case(ctx, {'kind': 'sow-collision', 'prog': prog, 'style': style, 'mutable': mj, 'call': 'init', 'x': 2})
+
+
 def run_programs(ctx, drv, conv, progs):
   scs, obs_list = [], []
   for prog in progs:
@@ -386,6 +439,9 @@ def run_case(ctx, drv, conv, case):
   if sc.get('kind') == 'return-shape':
     return_shape_case(ctx, sc)
     return
+  if sc.get('kind') == 'sow-collision':
+    sow_collision_case(ctx, sc)
+    return
   if sc.get('kind') == 'bound-nested':
     S.check_bound_nested(ctx, sc)
     return
@@ -426,6 +482,7 @@ def run(ctx):
   restore = [S.gen_restore_prog(ctx.rng) for _ in range(50 if not thorough else 600)]
   ctx.count('streams', 'restore', len(restore))
   run_programs(ctx, drv, conv, restore)
+  sow_collision_suite(ctx)
   # functional calls on an already bound submodule (depth >= 2, dataclass-field submodules, counters)
   for _ in range(40 if not thorough else 500):
     S.check_bound_nested(ctx, S.gen_bound_nested(ctx.rng))
